@@ -156,7 +156,7 @@ FM_LIB: dict[str, list[ExcT]] = {
 FM_LIB_DOC = [
     'put_nowait -> QueueFull', 'get_nowait -> QueueEmpty', 'asyncio.wait_for -> TimeoutError (+ what the awaited task raises)',
     'asyncio.get_running_loop -> RuntimeError', 'pydantic model_validate / TypeAdapter / validate_python / model_dump_json -> Exception',
-    'anyio.open_file / write / mkdir -> OSError', 'issubclass(non-class, ..) -> TypeError', 'every await -> CancelledError',
+    'anyio.open_file / write / mkdir -> OSError', 'issubclass(x, ..) -> TypeError unless evaluated under isinstance(x, type)', 'every await -> CancelledError',
     'await inside `async with asyncio.timeout(..)` -> TimeoutError',
     'sort / sorted / min / max keyed by a caller-supplied datetime field itself (naive and aware values do not compare) -> TypeError', 'all other library calls: assumed not to raise',
     'assert statements: assumed to hold',
@@ -398,10 +398,36 @@ class FaultModel:
         if name in FM_LIB:
             if name == 'write' and not isinstance(parent(c), ast.Await):
                 return set()
+            if name == 'issubclass' and c.args and self._known_class(c, U(c.args[0])):
+                return set()
             return set(FM_LIB[name])
         if name in ('sort', 'sorted', 'min', 'max') and self._orders_by_raw_datetime(c):
             return {ExcT('TypeError')}
         return set()
+
+    @staticmethod
+    def _known_class(c: ast.Call, x: str) -> bool:
+        """issubclass(x, ..) evaluated only after `isinstance(x, type)` held: as a later operand of the same `and`, or inside the body of an `if` (or the true arm of a
+        conditional expression) whose test has it as a conjunct."""
+        def is_type_test(e: ast.AST) -> bool:
+            return isinstance(e, ast.Call) and isinstance(e.func, ast.Name) and e.func.id == 'isinstance' and len(e.args) == 2 and U(e.args[0]) == x and U(e.args[1]) == 'type'
+
+        def conjuncts(t: ast.AST) -> list[ast.AST]:
+            return [y for v in t.values for y in conjuncts(v)] if isinstance(t, ast.BoolOp) and isinstance(t.op, ast.And) else [t]
+
+        node: ast.AST = c
+        p = parent(node)
+        while p is not None and not isinstance(p, (ast.FunctionDef, ast.AsyncFunctionDef, ast.Lambda, ast.ClassDef, ast.Module)):
+            if isinstance(p, ast.BoolOp) and isinstance(p.op, ast.And):
+                idx = next((i for i, v in enumerate(p.values) if v is node), None)
+                if idx is not None and any(is_type_test(y) for v in p.values[:idx] for y in conjuncts(v)):
+                    return True
+            if isinstance(p, (ast.If, ast.IfExp)) and node is not p.test and any(is_type_test(y) for y in conjuncts(p.test)):
+                in_true = any(node is b for b in p.body) if isinstance(p, ast.If) else node is p.body
+                if in_true and not (isinstance(p, ast.If) and any(isinstance(n_, ast.Name) and isinstance(n_.ctx, ast.Store) and n_.id == x for b in p.body for n_ in ast.walk(b))):
+                    return True
+            node, p = p, parent(p)
+        return False
 
     def _caller_supplied_datetime_fields(self) -> set[str]:
         """Model fields of the event class annotated plain `datetime`: a caller may construct an event with a timezone-naive or a timezone-aware value."""
